@@ -596,6 +596,7 @@ func init() {
 			return e.eval(args[1])
 		},
 		"lower": func(e *Env, args []ast.Expr) Value { return Scalar{strLower(e.st.norm(e.toTerm(e.eval(args[0]))))} },
+		"upper": func(e *Env, args []ast.Expr) Value { return Scalar{strUpper(e.st.norm(e.toTerm(e.eval(args[0]))))} },
 		"chancap": func(e *Env, args []ast.Expr) Value {
 			c, ok := e.eval(args[0]).(Chan)
 			if !ok {
